@@ -146,6 +146,11 @@ fn spice(rng: &mut Rng, def: &mut Definition) {
             c.templates.push(Template { content: "<é>".into(), position: pos });
         }
     }
+    // a fallback named twice in a row (the chain continues down the list; the list is part of the definition)
+    if rng.chance(1, 4) && !c.fallback.is_empty() {
+        let first = c.fallback[0];
+        c.fallback.insert(0, first);
+    }
     def.meta.meta.push(("ключ".into(), "値 😀".into()));
     def.meta.source = "généré".into();
     // written by another version of the library than the running one: the export keeps what the definition says
